@@ -227,11 +227,15 @@ impl PathWorker for ScanWithConfig {
 
 struct ScanStdin {
   rules: Vec<RuleConfig<SgLang>>,
+  unused_suppression_rule: RuleConfig<SgLang>,
   // TODO: remove this
   error_count: AtomicUsize,
 }
 impl ScanStdin {
   fn try_new(arg: ScanArg) -> Result<Self> {
+    // report unused suppressions like scanning files does
+    let overwrite = RuleOverwrite::new(&arg.overwrite)?;
+    let unused_suppression_rule = unused_suppression_rule_config(&arg, &overwrite);
     let rules = if let Some(path) = &arg.rule {
       read_rule_file(path, None)?
     } else if let Some(text) = &arg.inline_rules {
@@ -242,6 +246,7 @@ impl ScanStdin {
     };
     Ok(Self {
       rules,
+      unused_suppression_rule,
       error_count: AtomicUsize::new(0),
     })
   }
@@ -271,7 +276,8 @@ impl StdInWorker for ScanStdin {
   ) -> Result<Vec<P::Processed>> {
     use ast_grep_core::Language;
     let lang = self.rules[0].language;
-    let combined = CombinedScan::new(self.rules.iter().collect());
+    let mut combined = CombinedScan::new(self.rules.iter().collect());
+    combined.set_unused_suppression_rule(&self.unused_suppression_rule);
     let grep = lang.ast_grep(src);
     let path = Path::new("STDIN");
     let file_content = grep.source().to_string();
